@@ -1295,7 +1295,15 @@ STATE_SWITCH:
 
                 // No more data in the input buffer; store (buffer) the unprocessed
                 // part for later, for after we find out if this is a boundary.
-                bstr_builder_append_mem(parser->boundary_pieces, data + startpos, len - startpos);
+                if (bstr_builder_append_mem(parser->boundary_pieces, data + startpos, len - startpos) != HTP_OK) {
+                    // The positions remembered for the boundary candidate refer to
+                    // the pieces stored so far; without this piece they mean nothing.
+                    // Give up on the candidate (its bytes are lost) and go on with data.
+                    bstr_builder_clear(parser->boundary_pieces);
+                    parser->cr_aside = 0;
+                    parser->parser_state = STATE_DATA;
+                    return HTP_ERROR;
+                }
 
                 break;
 
